@@ -39,7 +39,10 @@ func verifDetFixture(fx string, n int, plus bool) ExtendedResources {
 		ex.Endpoints["d/svc:80"] = verifDetEndpoints(n)
 		data := map[string][]byte{}
 		for i := 0; i < n; i++ {
-			data["client"+strconv.Itoa(i)] = []byte("key" + strconv.Itoa(i))
+			// client names that differ only in case, in a separator or in length: an order that identifies two of them
+			// (case folding, trimming) would leave their relative position to the map iteration
+			stem := []string{"client", "Client", "CLIENT", "client-", "client_"}[i%5]
+			data[stem+strconv.Itoa(i/5)] = []byte("key" + strconv.Itoa(i))
 		}
 		ex.Policies = map[string]*conf_v1.Policy{"d/p1": verifDetPolicy("p1", conf_v1.PolicySpec{APIKey: &conf_v1.APIKey{
 			SuppliedIn: &conf_v1.SuppliedIn{Header: []string{"X-Key"}}, ClientSecret: "ak1"}})}
